@@ -17,6 +17,7 @@ mod mon_e;
 mod mon_f;
 mod digest_corpus;
 mod mon_par;
+mod mini;
 mod supervise;
 mod mon_stream;
 mod prng;
@@ -31,6 +32,10 @@ fn seed_from_env() -> u64 {
 }
 
 fn limit_memory() {
+    // sanitizer runtimes reserve terabytes of address space; Miri has no setrlimit
+    if cfg!(miri) || matches!(common::mode().as_str(), "asan" | "tsan" | "miri") {
+        return;
+    }
     // keep a runaway case from taking the machine down (alloc failure aborts => exit != 0/1)
     let gb: u64 = std::env::var("VERIF_MEM_GB").ok().and_then(|s| s.parse().ok()).unwrap_or(40);
     let lim = libc::rlimit { rlim_cur: gb << 30, rlim_max: gb << 30 };
@@ -87,6 +92,32 @@ fn main() {
             run_monitor(&ctx)
         }
         Some("child") => mon_par::child_main(&args[2..]),
+        Some("mini") => mini::main(&args[2..]),
+        Some("dump-streams") => {
+            // seed corpus for the fuzzer: small emitted streams
+            let dir = args.get(2).expect("dir");
+            let seed: u64 = args.get(3).and_then(|s| s.parse().ok()).unwrap_or(1);
+            let n: usize = args.get(4).and_then(|s| s.parse().ok()).unwrap_or(40);
+            std::fs::create_dir_all(dir).ok();
+            for (i, b) in mon_d::base_streams(seed, n).iter().enumerate() {
+                std::fs::write(format!("{dir}/seed-{seed}-{i}.flac"), &b.bytes).ok();
+            }
+            0
+        }
+        Some("parse-file") => {
+            // classify a fuzzer artifact with the release parser
+            let data = std::fs::read(args.get(2).expect("path")).expect("read");
+            match mon_d::parse_and_classify(&data, &[]) {
+                mon_d::Parsed::Panic(site, msg) => {
+                    println!("PARSE-PANIC {site} :: {msg}");
+                    1
+                }
+                other => {
+                    println!("PARSE-OK {}", match other { mon_d::Parsed::Err => "rejected", _ => "accepted" });
+                    0
+                }
+            }
+        }
         Some("replay") => {
             let path = args.get(2).expect("replay path");
             let text = std::fs::read_to_string(path).expect("read replay file");
